@@ -30,3 +30,9 @@ Lemma documented_classes_have_handlers :
   forallb (fun s => negb (documented (s_what s)) || String.eqb (s_what s) "<reraise>"
                     || match dispatch cli_handlers (census_mro 8 (s_what s)) with Some _ => true | None => false end) raise_sites = true.
 Proof. vm_compute. reflexivity. Qed.
+
+Lemma asserts_computed : asserts_ok = true.
+Proof. vm_compute. reflexivity. Qed.
+
+Theorem assert_census : forall a, In a assert_sites -> assert_ok a = true.
+Proof. intros a Ha. exact (proj1 (forallb_forall assert_ok assert_sites) asserts_computed a Ha). Qed.
